@@ -1107,7 +1107,10 @@ impl<T: RadixSortable> AdvancedRadixSort<T> {
     fn select_strategy(&self, data: &[T]) -> Result<SortingStrategy> {
         // If a specific strategy is forced, use it
         if let Some(strategy) = self.config.force_strategy {
-            return Ok(strategy);
+            // Forcing `Adaptive` means "select adaptively", not "no strategy"
+            if strategy != SortingStrategy::Adaptive {
+                return Ok(strategy);
+            }
         }
 
         // If adaptive strategy is disabled, default to LSD radix sort
